@@ -729,6 +729,20 @@ func (c *H2Client) onResponse(e *H2End, st *h2stream) {
 	e.S.Logf("h2 client %s got reply stream=%d status=%d body=%dB in %d DATA frames", c.Name, st.id, m.Status, len(m.Body), st.dataSeen)
 }
 
+// Unflushed returns what the endpoint has written while it has no connection (used to build the
+// byte string a well-behaved client would open a connection with).
+func (e *H2End) Unflushed() []byte { return append([]byte(nil), e.wbuf.Bytes()...) }
+
+// PrepareStream allocates the next client stream (for building byte strings off-line).
+func (e *H2End) PrepareStream() *h2stream {
+	st := e.stream(e.nextID)
+	e.nextID += 2
+	return st
+}
+
+// FieldsOf exposes the message-to-header-list mapping.
+func FieldsOf(m *H1Msg, authority string) []hpack.HeaderField { return fieldsOf(m, authority) }
+
 // Unsent is the number of body bytes of r the client still holds back (waiting for MOSN's credit).
 func (c *H2Client) Unsent(r *ReqRec) int {
 	for id, x := range c.byStream {
